@@ -52,16 +52,26 @@ claim("C03", "proof",
       "DESIGN.md section 6, C03")
 
 claim("C04", "proof",
-      "PARTIAL.  Coq theorems for the pruning logic only: under sound interval evaluation (C02) a cell classified EMPTY / "
-      "FILLED contains no zero of the field and every point of it has the classified sign, so all surface lies in AMBIGUOUS "
-      "cells (also through a volume tree); vertex containment for simplex / hybrid is C19.  The separation statement itself "
-      "(winding number 1 inside / 0 outside away from the surface; vertices in the region and near the zero set) is decided "
-      "by the oracle on the implementation: generalised winding numbers (solid-angle sums) at random points further than 1.5 "
-      "feature sizes from the surface, vertex containment and |field| at vertices, over random closed 1-Lipschitz solids x 3 "
-      "algorithms x workers x resolutions, with and without an acceleration volume tree.",
+      "PARTIAL.  Coq theorems: (a) pruning - under sound interval evaluation (C02) a cell classified EMPTY / FILLED contains no "
+      "zero of the field and every point of it has the classified sign, so all surface lies in AMBIGUOUS cells (also through a "
+      "volume tree); (b) dual contouring on a uniform grid (the executable model of Dual<3>::walk + DCMesher::load over the "
+      "run-time patch tables): the mesh is exactly the boundary of the inside lattice set - two triangles per lattice edge whose "
+      "ends differ, over one vertex of each of the four cells around it; every lattice path from an inside to an outside point "
+      "crosses an odd number of quads, every path between points on one side an even number; quads are wound so that normals "
+      "point from the inside to the outside lattice point; (c) over R^3 with grid spacing h: a sign-changing edge of a field "
+      "continuous along it carries a zero lying in the four cells around it, so a quad vertex that lies in its own cell (C19 "
+      "for simplex / hybrid; an explicit hypothesis, NOT guaranteed by dual contouring - see the finding) is within sqrt(3) h of "
+      "the zero set; (d) a feature thinner than the grid is invisible to corner signs (refutation of the converse).  The "
+      "separation statement for real renders on adaptive octrees (winding number 1 inside / 0 outside away from the surface; "
+      "vertices in the region and near the zero set) is decided by the oracle on the implementation: generalised winding numbers "
+      "(solid-angle sums) at random points further than 1.5 feature sizes from the surface, vertex containment and |field| at "
+      "vertices, over random closed 1-Lipschitz solids x 3 algorithms x workers x resolutions, with and without an acceleration "
+      "volume tree.  Tie for (b): uniform-grid renders of the implementation have exactly two triangles per filled-empty lattice "
+      "edge of its own lattice signs and are closed (and C03's grid stage compares triangle / vertex counts with the extracted model).",
       "Trusted: Coq kernel + classical reals; harness audit_mesh (solid angles in doubles); the oracle's thresholds (1.5 / 3 / "
-      "0.02 feature sizes).  Known findings: unbounded dual-contouring vertices (outside:dc, offsurface:dc).",
-      "Coq proof (pruning soundness over the reals) + winding-number oracle",
+      "0.02 feature sizes).  Known findings: unbounded dual-contouring vertices (outside:dc, offsurface:dc); holes of the simplex "
+      "mesher when cells collapse (hole:simplex:collapse).",
+      "Coq proof (pruning soundness; lattice boundary, parity of crossings, orientation; IVT over the reals) + winding-number oracle",
       "DESIGN.md section 6, C04")
 
 claim("C10", "proof",
